@@ -418,6 +418,17 @@ def write_evidence(s, level, code):
         "sources": source_hashes(),
         "cells_reused_from_cache": s.get("cache_hits", 0),
     }
+    # functions under contract: every function of /repo for which a pre / post / invariant / frame clause was generated this run;
+    # assumed contracts: callees replaced by their contract at a call site (each is proved by its own cell, listed in the same way)
+    fns, assumed = set(), set()
+    for k in s["by_clause"]:
+        parts = k.split("::")
+        if len(parts) >= 3 and parts[0].endswith(".py"):
+            fns.add(parts[0] + "::" + parts[1])
+            if parts[2].startswith("pre@call"):
+                assumed.add(parts[0] + "::" + parts[1])
+    cov["functions_under_contract"] = sorted(fns)
+    cov["callee_contracts_used_at_call_sites"] = sorted(assumed)
     lvl = level
     if level == "proof" and not all_ok:
         lvl = "other"
